@@ -570,7 +570,7 @@ class PeerConnection:
         with self.state_lock:
             if self.state == PEER_READY_WAITING_DWA:
                 self.state = PEER_READY
-        self._last_dwr = 0
+            self._last_dwr = 0
 
     def reset_last_dwr(self):
         """Mark that a DWR has been sent.
@@ -581,7 +581,7 @@ class PeerConnection:
         with self.state_lock:
             if self.state in PEER_READY_STATES:
                 self.state = PEER_READY_WAITING_DWA
-        self._last_dwr = int(time.time())
+            self._last_dwr = int(time.time())
 
     def work_read_queue(self, _thread: StoppableThread):
         while True:
